@@ -16,6 +16,10 @@ def check_self_attrs(ctx, res: Result, cls_name: str, rule="C-ATTR"):
     # attributes created by name: `setattr(self, <name>, value)` / `self.__dict__[...] = ` / `vars(self).update(...)`.  A
     # constant name is a definition like any other; a computed one opens the world (the names may sit in a table)
     dynamic = False
+    # a base class that is not a repository class (or could not be told apart) may define anything
+    resolved = {b.name for b in ci.base_nodes}
+    if any(b.split(".")[-1] not in resolved and b.split(".")[-1] not in ("object", "Generic", "Protocol", "ABC") for b in ci.bases):
+        dynamic = True
     for m in ci.methods.values():
         for n in ast.walk(m.node):
             if isinstance(n, ast.Call) and isinstance(n.func, ast.Name) and n.func.id == "setattr" and len(n.args) >= 2 and isinstance(n.args[0], ast.Name) and n.args[0].id == "self":
